@@ -186,6 +186,16 @@ func (r *FnRun) execInstr(st *State, ins ssa.Instruction, in map[*ssa.BasicBlock
 		return st
 
 	case *ssa.ChangeType:
+		if tp, ok := types.Unalias(x.X.Type()).(*types.TypeParam); ok && types.IsInterface(x.Type()) {
+			// boxing a value of type parameter T (generic body): if T is not an interface type the result is a non-nil
+			// interface whose dynamic type is T; if it is, the dynamic type is whatever the value holds
+			tb := r.tb()
+			tpt := r.e.typeArgTag(tp)
+			isI := tb.Eq(tb.App("ghost:rkind", BV64, tb.App("ghost:typedesc", BV64, tpt)), tb.BVI(64, 20))
+			r.addFact(tb.Implies(tb.Not(isI), tb.Not(tb.Eq(tpt, tb.BVI(64, 0)))))
+			r.vals[x] = IfaceV{Tag: tb.Ite(isI, tb.Fresh("tpbox.tag", BV64), tpt), Data: tb.Fresh("tpbox.data", BV64)}
+			return st
+		}
 		r.vals[x] = r.val(x.X)
 		return st
 
